@@ -50,7 +50,21 @@ func c17Input(k *h.Case, variant int) (string, h.Opts, string) {
 		o.LM, o.Path = true, "dir/in.pory"
 	}
 	class := "valid"
-	switch variant % 6 {
+	if k.R.IntN(2) == 0 {
+		// format() with control codes under an explicit font: the same words are measured under
+		// different fonts by different inputs of this process
+		font := []string{"1_latin_rse", "1_latin_frlg"}[k.R.IntN(2)]
+		src += "\ntext " + g.Name("TxtCc") + " { format(\"Press {UP_ARROW} {UP_ARROW} {DOWN_ARROW} {UP_ARROW} {LEFT_ARROW} {UP_ARROW} {RIGHT_ARROW} {UP_ARROW} {UP_ARROW} {DOWN_ARROW} {UP_ARROW} {UP_ARROW} {LEFT_ARROW} {UP_ARROW} {UP_ARROW} to continue {PLAYER}.\", \"" + font + "\") }\n"
+	}
+	switch variant % 8 {
+	case 6: // two different duplicated text labels: which one is reported must not vary
+		a, b := g.Name("TxtDupA"), g.Name("TxtDupB")
+		src += "\ntext " + a + " { \"one\" }\ntext " + b + " { \"two\" }\ntext " + a + " { \"three\" }\ntext " + b + " { \"four\" }\n"
+		class = "two-duplicate-texts"
+	case 7: // two different duplicated movement labels
+		a, b := g.Name("MovDupA"), g.Name("MovDupB")
+		src += "\nmovement " + a + " { walk_up }\nmovement " + b + " { walk_down }\nmovement " + a + " { walk_left }\nmovement " + b + " { walk_right }\n"
+		class = "two-duplicate-movements"
 	case 1: // unknown font id with the two-font repository config: error text lists the fonts
 		src += "\ntext " + g.Name("TxtF") + " { format(\"some words here\", \"nofont\") }\n"
 		class = "unknown-font"
@@ -130,7 +144,7 @@ func runC17(ctx *h.Ctx) int {
 		if class == "named-format-params" {
 			n = 60
 		}
-		if class == "unknown-font" || class == "unknown-default-font" {
+		if class == "unknown-font" || class == "unknown-default-font" || class == "two-duplicate-texts" || class == "two-duplicate-movements" {
 			n = 200 // map-order sensitive: a 2-entry map shows its minority order with probability 1/8 per iteration
 		}
 		for i := 0; i < n; i++ {
@@ -189,6 +203,54 @@ func runC17(ctx *h.Ctx) int {
 		}
 		k.Count("fresh_process_triples_equal", 1)
 		k.Nontrivial("fresh", first.Exit, len(first.Out)/128)
+	})
+	// (a'') adversarial history: X compiled in this process right after Y (same words, other font /
+	// other switches / other default length) must equal X compiled in a fresh process
+	ctx.RunCases("adversarial-history", ctx.N(60, 1500), func(k *h.Case) {
+		prof := profFull()
+		g := spec.NewGen(k.R, prof)
+		prog := g.FullProgram(1 + k.R.IntN(3))
+		words := []string{"{UP_ARROW}", "{DOWN_ARROW}", "{LEFT_ARROW}", "{RIGHT_ARROW}", "{PLAYER}", "Hello", "there,", "trainer!", "{STR_VAR_1}", "WWWW", "iiii", "{PAUSE 20}"}
+		var sb []string
+		for i := 0; i < 30; i++ {
+			sb = append(sb, words[k.R.IntN(len(words))])
+		}
+		text := strings.Join(sb, " ")
+		fonts := []string{"1_latin_rse", "1_latin_frlg"}
+		fx := k.R.IntN(2)
+		mk := func(font string) string {
+			return spec.Source(prog) + "\ntext TxtHistory { format(\"" + text + "\", \"" + font + "\") }\n"
+		}
+		srcX, srcY := mk(fonts[fx]), mk(fonts[1-fx])
+		k.SetSource(srcX)
+		ox := optsOf(prog, true)
+		oy := ox
+		oy.Switches = map[string]string{}
+		for kk, v := range prog.Switches {
+			oy.Switches[kk] = v + "x"
+		}
+		oy.MaxLen = 60
+		dir := workDir(k)
+		defer cleanWork(dir)
+		fresh := runCLI(dir, srcX, prog, true, false)
+		k.Count("evaluations", 3)
+		if fresh.Err != nil {
+			k.C.Inconclusive("cannot run CLI: %v", fresh.Err)
+			return
+		}
+		c17Compile(srcY, oy)
+		c17Compile(srcY, ox)
+		after := h.Compile(srcX, ox)
+		if after.OK() != (fresh.Exit == 0) {
+			k.Violation("history-changes-acceptance", fmt.Sprintf("after compiling a sibling input in this process: %q; in a fresh process: exit %d %s", after.ErrString(), fresh.Exit, firstLineOf(fresh.Stderr)), nil)
+			return
+		}
+		if after.OK() && after.Out != fresh.Out {
+			k.Violation("history-changes-output", "the output of an input compiled after a sibling input (same words, other font/switches/length) differs from its output in a fresh process", map[string]interface{}{"fresh": fresh.Out, "after_history": after.Out, "sibling": srcY})
+			return
+		}
+		k.Count("history_pairs_equal", 1)
+		k.Nontrivial("history", fx, len(after.Out)/64)
 	})
 	// (b) independence from the other top-level statements
 	ctx.RunCases("independence", ctx.N(1500, 100000), func(k *h.Case) {
